@@ -279,3 +279,43 @@ func TestReplayStaleReleaseAfterTypeChange(t *testing.T) {
 		t.Errorf("a second request was admitted under max-in-flight(1) while the first is unfinished (stale release of a request admitted before the type change freed its slot)")
 	}
 }
+
+// TestReplayRequestRacingWithSchemaAdd: regression for the fixed finding C05-request-racing-with-schema-add-panics,
+// without the scheduler: requests hammer GetOrDefault(name).TryAcquire() while the schema is added.
+func TestReplayRequestRacingWithSchemaAdd(t *testing.T) {
+	for round := 0; round < 300; round++ {
+		ctx, cancel := context.WithCancel(context.Background())
+		ul := flowcontrols.NewUpstreamLimiter(ctx, "c1", "", nil)
+		ul.Sync(proxyv1alpha1.FlowControl{Schemas: []proxyv1alpha1.FlowControlSchema{cfg{Kind: "mif", M: 1}.schema("other")}})
+		done := make(chan struct{})
+		panicked := make(chan interface{}, 1)
+		go func() {
+			defer func() {
+				if r := recover(); r != nil {
+					panicked <- r
+				} else {
+					panicked <- nil
+				}
+			}()
+			for {
+				select {
+				case <-done:
+					return
+				default:
+				}
+				fc := ul.GetOrDefault("s")
+				if fc.TryAcquire() {
+					fc.Release()
+				}
+			}
+		}()
+		ul.Sync(proxyv1alpha1.FlowControl{Schemas: []proxyv1alpha1.FlowControlSchema{cfg{Kind: "mif", M: 2}.schema("s"), cfg{Kind: "mif", M: 1}.schema("other")}})
+		close(done)
+		r := <-panicked
+		ul.Sync(proxyv1alpha1.FlowControl{})
+		cancel()
+		if r != nil {
+			t.Fatalf("round %d: a request racing with the addition of its schema panicked: %v", round, r)
+		}
+	}
+}
